@@ -506,7 +506,9 @@ class Runner(object):
                 # never started, which the failing file's own diagnostics and the exit status already show
                 nreached = got[-1] + 1
         reached = list(files[:nreached])
-        want_proj = c["inv"] == "batch" or conf["dist"] == 0
+        # projections: in the baseline, in its repetition (so that every projection is observed twice even for a file that
+        # no batch ever reaches) and in every batched run
+        want_proj = c["inv"] == "batch" or conf["dist"] == 0 or (conf["dist"] == 1 and c["rep"] == 2)
         obs = []                 # (file, kind, view, digest); view "text" = the whole output
         dtag = seen_dir.encode()
 
